@@ -21,6 +21,7 @@ def run(repo, run, tier):
     run.assumptions += ["real arithmetic: rounding of the evaluated polynomial is not modelled ('to rounding' is not decided)"]
     hermite(repo, run)
     bisection(repo, run, tier)
+    bisection_vec(repo, run, tier)
 
 
 # ------------------------------------------------------------------------------------------------
@@ -263,3 +264,158 @@ def bisection(repo, run, tier):
             "above all elements" if q == 2 * n else "between elements %d and %d" % (q // 2 - 1, q // 2)))
         run.report("C17.4", UTIL, fn, "for a strictly increasing array of length %d and a query %s the search %s (%d of %d order types fail)" % (
             n, pos, why, len(bad), total), text="search_bisection over order types: first failure n=%d class=%d: %s" % (n, q, why))
+
+
+# ------------------------------------------------------------------------------------------------
+# vectorised bisection: the same order-type abstraction with a small model of the elementwise numpy operations it uses
+class _Vec:
+    def __init__(self, kind, data):
+        self.kind, self.data = kind, list(data)       # kind in {'int', 'bool', 'elem'}
+
+    def __len__(self):
+        return len(self.data)
+
+
+class VecBisectDomain(BisectDomain):
+    CMP = None
+
+    def _cmp(self, op, a, b):
+        import operator
+        f = {ast.Lt: operator.lt, ast.LtE: operator.le, ast.Gt: operator.gt, ast.GtE: operator.ge, ast.Eq: operator.eq, ast.NotEq: operator.ne}.get(type(op))
+        if f is None:
+            raise AnalysisError("unsupported comparison operator in the vector search")
+        return f(a, b)
+
+    def _lift(self, x, n, kind):
+        if isinstance(x, _Vec):
+            return x.data
+        return [x] * n
+
+    def compare(self, op, a, b, node):
+        if isinstance(a, _Vec) or isinstance(b, _Vec):
+            n = len(a) if isinstance(a, _Vec) else len(b)
+            ka = a.kind if isinstance(a, _Vec) else ("elem" if isinstance(a, _Elem) else "int")
+            kb = b.kind if isinstance(b, _Vec) else ("elem" if isinstance(b, _Elem) else "int")
+            if ka != kb:
+                raise AnalysisError("comparison between array elements and non-elements in `%s`" % src(node))
+            da, db = self._lift(a, n, ka), self._lift(b, n, kb)
+            if ka == "elem":
+                return _Vec("bool", [self._cmp(op, x.coord, y.coord) for x, y in zip(da, db)])
+            return _Vec("bool", [self._cmp(op, x, y) for x, y in zip(da, db)])
+        return super().compare(op, a, b, node)
+
+    def binop(self, op, a, b, node):
+        if isinstance(a, _Vec) or isinstance(b, _Vec):
+            n = len(a) if isinstance(a, _Vec) else len(b)
+            for x in (a, b):
+                if isinstance(x, _Vec) and x.kind == "elem" or isinstance(x, _Elem):
+                    raise AnalysisError("arithmetic on array elements / queries in `%s`: the vector search is not comparison-only" % src(node))
+                if not isinstance(x, (_Vec, int)) or isinstance(x, bool):
+                    return OPAQUE
+            import operator
+            f = {ast.Add: operator.add, ast.Sub: operator.sub, ast.Mult: operator.mul, ast.FloorDiv: operator.floordiv}.get(type(op))
+            if f is None:
+                raise AnalysisError("unsupported arithmetic `%s` on index vectors" % src(node))
+            return _Vec("int", [f(x, y) for x, y in zip(self._lift(a, n, "int"), self._lift(b, n, "int"))])
+        return super().binop(op, a, b, node)
+
+    def unary(self, op, a, node):
+        if isinstance(a, _Vec) and a.kind == "bool" and isinstance(op, (ast.Invert, ast.Not)):
+            return _Vec("bool", [not x for x in a.data])
+        return NotImplemented
+
+    def truth(self, v, node):
+        if isinstance(v, _Vec):
+            raise AnalysisError("truth value of a vector in `%s`" % src(node))
+        return NotImplemented
+
+    def call(self, name, node, args, kwargs, interp):
+        short = (name or "").split(".")[-1]
+        if short in ("asarray", "array") and args and isinstance(args[0], (_Vec, _Arr)):
+            return args[0]
+        if short in ("zeros_like", "ones_like") and args and isinstance(args[0], _Vec):
+            return _Vec("int", [0 if short == "zeros_like" else 1] * len(args[0]))
+        if short == "take" and len(args) >= 2 and isinstance(args[0], _Arr) and isinstance(args[1], _Vec) and args[1].kind == "int":
+            out = []
+            for i in args[1].data:
+                if i < -args[0].n or i >= args[0].n:
+                    raise _IndexErr(src(node))
+                out.append(_Elem(2 * (i % args[0].n) + 1))
+            return _Vec("elem", out)
+        if short == "any" and args and isinstance(args[0], _Vec) and args[0].kind == "bool":
+            return any(args[0].data)
+        if short == "all" and args and isinstance(args[0], _Vec) and args[0].kind == "bool":
+            return all(args[0].data)
+        if short == "where" and len(args) == 3 and isinstance(args[0], _Vec) and args[0].kind == "bool":
+            n = len(args[0])
+            a, b = self._lift(args[1], n, "int"), self._lift(args[2], n, "int")
+            return _Vec("int", [x if c else y for c, x, y in zip(args[0].data, a, b)])
+        if short in ("logical_and", "logical_or") and len(args) == 2 and all(isinstance(x, _Vec) and x.kind == "bool" for x in args):
+            f = (lambda p, q: p and q) if short == "logical_and" else (lambda p, q: p or q)
+            return _Vec("bool", [f(p, q) for p, q in zip(args[0].data, args[1].data)])
+        if short == "logical_not" and args and isinstance(args[0], _Vec):
+            return _Vec("bool", [not x for x in args[0].data])
+        if short == "len" and args and isinstance(args[0], _Vec):
+            return len(args[0])
+        if short in ("copy", "clone") and args and isinstance(args[0], _Vec):
+            return _Vec(args[0].kind, args[0].data)
+        return super().call(name, node, args, kwargs, interp)
+
+    def load_subscript(self, obj, idx, node, interp):
+        if isinstance(obj, _Vec) and isinstance(idx, _Vec) and idx.kind == "bool":
+            return _Vec(obj.kind, [x for x, m in zip(obj.data, idx.data) if m])
+        if isinstance(obj, _Vec) and isinstance(idx, int):
+            return obj.data[idx]
+        return super().load_subscript(obj, idx, node, interp)
+
+    def store_subscript(self, obj, idx, val, node, interp):
+        if isinstance(obj, _Vec) and isinstance(idx, _Vec) and idx.kind == "bool":
+            pos = [i for i, m in enumerate(idx.data) if m]
+            vals = val.data if isinstance(val, _Vec) else [val] * len(pos)
+            if len(vals) != len(pos):
+                raise AnalysisError("masked store with mismatching lengths in `%s`" % src(node))
+            for i, v in zip(pos, vals):
+                obj.data[i] = v
+            return True
+        return NotImplemented
+
+
+def bisection_vec(repo, run, tier):
+    r5 = run.rule("C17.5", "vectorised bisection interpreted over all order types with a model of its elementwise numpy operations: for every array length n and "
+                           "every vector of query classes tried it returns min(first index with element >= query, n-1) component-wise, i.e. agrees with the "
+                           "scalar search", floor=20)
+    fn = repo.get(UTIL, "search_bisection_vec")
+    run.analysed_fn(UTIL, fn)
+    params = [a.arg for a in fn.args.args]
+    nmax = 6 if tier == "quick" else 16
+    bad = []
+    total = 0
+    for n in range(1, nmax + 1):
+        queries = [list(range(0, 2 * n + 1))] + [[q] for q in range(0, 2 * n + 1)] + [list(range(2 * n, -1, -1))]
+        for qs in queries:
+            total += 1
+            it = Interp(VecBisectDomain(), max_paths=2, max_steps=20000)
+            want = [min(q // 2, n - 1) for q in qs]
+            try:
+                outs = list(it.all_paths(fn, {params[0]: _Arr(n), params[1]: _Vec("elem", [_Elem(q) for q in qs])}))
+            except _IndexErr as e:
+                bad.append((n, qs, "IndexError at %s" % e))
+                run.judged(r5, "n=%d queries=%s" % (n, qs), ok=False)
+                continue
+            except PathLimit:
+                bad.append((n, qs, "does not terminate within the step bound"))
+                run.judged(r5, "n=%d queries=%s" % (n, qs), ok=False)
+                continue
+            if len(outs) != 1 or outs[0][0] != "return" or not isinstance(outs[0][1], _Vec) or outs[0][1].kind != "int":
+                raise AnalysisError("search_bisection_vec is not deterministic/concrete over order types (n=%d): %r" % (n, outs[:1]))
+            got = outs[0][1].data
+            ok = got == want
+            run.judged(r5, "n=%d query classes %s -> %s" % (n, qs if len(qs) < 6 else "[all %d]" % len(qs), got if len(got) < 8 else "..."), nontrivial=n > 1, ok=ok)
+            if not ok:
+                bad.append((n, qs, "returns %s, specification %s" % (got, want)))
+    run.extra["vector_bisection_cases"] = total
+    if bad:
+        n, qs, why = bad[0]
+        run.report("C17.5", UTIL, fn, "for a strictly increasing array of length %d and query classes %s the vectorised search %s (%d of %d cases fail): it disagrees "
+                                      "with the specification / the scalar search" % (n, qs, why, len(bad), total),
+                   text="search_bisection_vec over order types: first failure n=%d: %s" % (n, why))
